@@ -1025,7 +1025,7 @@ func (e *SpecEnv) quant(kind string, n *ast.CallExpr) (Value, error) {
 		rng = Cmp("<=", lo, bv)
 	}
 	// small constant ranges are expanded
-	if !unbounded && lo.Kind == KInt && hi.Kind == KInt && hi.I-lo.I <= 8 {
+	if !unbounded && lo.Kind == KInt && hi.Kind == KInt && hi.I-lo.I <= 12 {
 		var parts []*Term
 		for i := lo.I; i < hi.I; i++ {
 			parts = append(parts, substTerm(body, []*Term{bv}, []*Term{IntT(i)}))
